@@ -23,6 +23,7 @@ for asc in (True, False):
     qs.append(query(1, 2, [2], crit('one', leaf()), 'time', asc, 0, 1))
 fams = [dict(name='measure-order-window', series=S, times=T, versions=[1, 2], versioned=True, maxrows=1, maxtotal=3,
              maxops=3, graphops=0, sims=60 if c.quick else 600, simops=12, queries=qs, index='inverted', tags_by_series=True, sim=dict(maxrows=3, maxtotal=9))]
+fams.append(dict(fams[0], name='measure-order-window-2shards', shards=2, sims=30 if c.quick else 400))
 def nontrivial(st):
     ops = [x['last'].get('op') for x in st[1:]]
     return 'queryall' in ops and sum(1 for o in ops if o == 'write') >= 2
@@ -41,5 +42,5 @@ c.cov.update(states=tot['states'] + extra.get('states', 0), transitions=tot['tra
              rule='(engine) Engine.tla computes, for %d ordered queries (ASC/DESC by time x offsets x limits incl. beyond the end, with criteria and series restrictions), the window of sort keys of the full result; -simulate behaviours spread the rows over batches, memory and file parts and merges; every QueryAll step sends each query over gRPC: rows must be admissible rows of the full result, sorted, and their sort-key sequence equal to the spec window (ties in any order); (sidx) see sidx component; non-trivial = a QueryAll after at least two batches' % len(qs),
              harness_stats=stats, sidx=extra, action_coverage=cover,
              samples=[{'family': s['family'], 'ops': [o if o.get('op') != 'queryall' else {'op': 'queryall', 'n': len(o['res'])} for o in s['ops']]} for s in samples])
-c.assumptions += ['one shard / one segment in the quick tier; duplicate sort keys accept any tie order; measure engine only for the gRPC leg']
+c.assumptions += ['one or two shards, one segment; duplicate sort keys accept any tie order; measure engine only for the gRPC leg']
 c.finish()
